@@ -1,16 +1,21 @@
 /-
   Property C01 — formula operators keep their Excel meaning (precedence, sign, %, &).
 
-  Proved here (partial, see the end of the file for what is missing):
+  Proved here:
+  * **C01_main**: for EVERY stratified expression - i.e. every reading the rule "% tightest, then sign, then * /, then + -,
+    then &, then comparisons, equal levels to the left, brackets override" allows, of any length and nesting - grouping the
+    token sequence it prints to returns exactly that expression (`C01_main`, `C01_main_model`), and a token sequence has
+    at most one stratified reading (`C01_unambiguous`); so whenever the model's grouping succeeds it returns THE Excel reading;
   * the grouping never drops, reorders or invents a token and puts brackets exactly where the formula has them
     (`group_exact`, for every token sequence);
   * the complete precedence / associativity table for every ordered pair of binary operators, every sign position and
     every % position, as kernel-evaluated finite statements over ALL operators (`pair_table`, `sign_table`, `pct_table`);
   * a blank operand counts as 0 in arithmetic; a numeric literal denotes the nearest double (from the value lemmas of C17).
-  Not proved: the lift from operator pairs to chains of arbitrary length and nesting (`C01_main` of DESIGN.md); that
-  quantifier is carried by the correspondence check (every token string to length 5/7 + random chains to 25 tokens).
+  Not proved in Lean: that the bracket structure the real translator reads off the token tree is the bracket matching of the
+  token sequence (true for derivations, C05), and the value-level semantics of CPython's operators (modelled, Tie B).
 -/
 import E2P.Model.Ops
+import E2P.Lemmas.OpsMain
 import Mathlib.Data.List.Basic
 namespace E2P.C01
 open E2P
@@ -204,5 +209,50 @@ example : valOf [.op .sub, .atom 1, .op .add, .atom 2] = some (some 1, none, non
     valOf [.atom 0, .op .add, .atom 1, .op .cat, .atom 2] = some (none, some "33".toList, none) ∧
     valOf [.atom 1, .op .add, .atom 2, .op .mul, .atom 3] = some (some 14, none, none) ∧
     valOf [.atom 4, .op .sub, .atom 1, .op .sub, .atom 2] = some (some 5, none, none) := ⟨rfl, rfl, rfl, rfl, rfl⟩
+
+/-! ### full strength: every stratified expression, any length, any nesting -/
+
+/-- **C01_main.**  If `e` is a stratified expression (`shape e = some a`: % applied to operands only, signs to signed
+    operands, every binary node's left child no looser and its right child strictly tighter than the node - which is
+    precisely "% tightest, then sign, then * /, then + -, then &, then comparisons, left associative, brackets override"),
+    then grouping the tokens `e` prints to returns `e`, for every sufficiently large recursion budget. -/
+theorem C01_main (e : Ex) (a : Nat) (h : shape e = some a) :
+    ∃ N, ∀ fuel, N ≤ fuel → pLevel fuel 4 e.flat = some (e, []) := by
+  have := (claims e).main a h 4 (shape_le_four e a h) [] (by simp [StopBelow]) (e, [])
+    (loops_all_stop _ 4 e [] (by simp))
+  simpa [Ev] using this
+
+/-- a token sequence has at most one stratified reading: "the value Excel defines" is well defined -/
+theorem C01_unambiguous (e₁ e₂ : Ex) (a₁ a₂ : Nat) (h₁ : shape e₁ = some a₁) (h₂ : shape e₂ = some a₂)
+    (hf : e₁.flat = e₂.flat) : e₁ = e₂ := by
+  obtain ⟨N1, g1⟩ := C01_main e₁ a₁ h₁
+  obtain ⟨N2, g2⟩ := C01_main e₂ a₂ h₂
+  have x := g1 (max N1 N2) (Nat.le_max_left _ _)
+  have y := g2 (max N1 N2) (Nat.le_max_right _ _)
+  rw [hf, y] at x
+  simpa using x.symm
+
+/-- the model's grouping with its fixed budget: whenever it returns something for the tokens of a stratified `e`, it is `e`;
+    and it does return `e` as soon as the budget 4·n+8 reaches the bound of `C01_main` -/
+theorem C01_main_model (e : Ex) (a : Nat) (h : shape e = some a) (e' : Ex) (hg : groupTokens e.flat = some e') : e' = e := by
+  obtain ⟨N, g⟩ := C01_main e a h
+  unfold groupTokens at hg
+  cases hl : pLevel (4 * e.flat.length + 8) 4 e.flat with
+  | none => rw [hl] at hg; simp at hg
+  | some p =>
+    obtain ⟨x, r⟩ := p
+    rw [hl] at hg
+    have hm := pLevel_mono _ N 4 _ _ hl
+    rw [g _ (by omega)] at hm
+    simp only [Option.some.injEq, Prod.mk.injEq] at hm
+    obtain ⟨rfl, rfl⟩ := hm
+    simpa using hg.symm
+
+/-- non-vacuity: −2+3·4%−(5−6)&7=8<>9 is stratified (and so are the readings listed in the tables above) -/
+example : shape (.bin (.cmp .ne) (.bin (.cmp .eq) (.bin .cat (.bin .sub (.bin .add (.neg (.atom 0)) (.bin .mul (.atom 1) (.pct (.atom 2))))
+    (.paren (.bin .sub (.atom 3) (.atom 4)))) (.atom 5)) (.atom 6)) (.atom 7)) = some 4 := by decide
+/-- … while a tree that contradicts precedence or left associativity is not -/
+example : shape (.bin .mul (.bin .add (.atom 0) (.atom 1)) (.atom 2)) = none ∧
+    shape (.bin .sub (.atom 0) (.bin .sub (.atom 1) (.atom 2))) = none ∧ shape (.pct (.neg (.atom 0))) = none := by decide
 
 end E2P.C01
